@@ -33,7 +33,7 @@ CHECKS = {
         text=("Proof: C08_field_placed, C08_fields_disjoint, C08_sizeof (for EVERY field list and every ABI with widths in {1,2,4,8}: fields aligned to their guest alignment, ascending, pairwise disjoint, inside "
               "sizeof; sizeof a multiple of the struct alignment which every field alignment divides), C08_roundtrip (copy-in then copy-out returns every field: integers by C06, pointers by C04, arrays element-wise, "
               "nested structs recursively, any nesting depth), C08_total + C08_done_fits (the copy aborts exactly when some integer leaf does not fit its guest type), C08_pointwise / C08_pointwise_out (image field i is the "
-              "conversion of source field i and of nothing else; same field count). Tied to the code by generated struct families (all leaf kinds, arrays incl. pointer and function-pointer arrays, nesting <= 2, shuffled orders) "
+              "conversion of source field i and of nothing else; same field count), C08_store_frame (a whole-struct store writes exactly the leaves' footprints: padding and everything around keeps its value). Tied to the code by generated struct families (all leaf kinds, arrays incl. pointer and function-pointer arrays, nesting <= 2, shuffled orders) "
               "compiled against the real headers: leaf offsets through tainted pointers vs an independently declared fixed-width struct vs the model; raw copy-in image, copy-out, by-value argument seen by the guest, "
               "by-value result, copy-out of a guest-written image, loads through a const view; ABIs A/B/C."),
         note=NOTE + "Not covered: arrays of structs and const-qualified fields (rejected by rlbox's struct support at compile time), bit-fields, unions; float/double fields carry integral values (never converted)."),
